@@ -258,7 +258,7 @@ def norm_cmp(op, a, b):
 
 
 class Engine:
-    def __init__(self, prog, fn, inline=None, max_paths=MAX_PATHS, max_visits=MAX_VISITS, max_depth=MAX_DEPTH, models=True, params=None, follow=None, inline_eq=False, consts=None, self_methods=None):
+    def __init__(self, prog, fn, inline=None, max_paths=MAX_PATHS, max_visits=MAX_VISITS, max_depth=MAX_DEPTH, models=True, params=None, follow=None, inline_eq=False, consts=None, self_methods=None, unfold=None):
         """inline(callee Fn) -> bool decides which crate-local callees are walked inline in addition to
         closures (always) and the functions the rule set has never seen (vlib/baseline_fns.json)."""
         self.prog = prog
@@ -281,6 +281,11 @@ class Engine:
         # {(trait path, method name): Fn}: how calls on the generic `Self` of a provided trait method resolve
         # when that body is analysed for one particular impl
         self.self_methods = self_methods or {}
+        # small-scope unfolding of a trait implemented by recursion over a cons list: {'trait': path, 'k': list length,
+        # 'cons': impl, 'null': impl}. A call of a method of that trait whose receiver is the list's j-th tail
+        # (j nested `.1` projections of a parameter) is walked in the cons impl for j < k and in the Null impl for j = k.
+        self.unfold = unfold
+        self.frame_level = {0: 0}
         # generic instantiation of callees walked inline: frame -> {type parameter name: type in the root function's terms}
         self.frame_subst = {}
         self.cur_frame = 0
@@ -439,6 +444,10 @@ class Engine:
                 v = self.eval_promoted(st, fn, c['promoted'])
                 if v is not None:
                     return v
+            if 'uneval' in c and 'promoted' not in c and self.unfold and c['uneval'].startswith(self.unfold['trait'] + '::'):
+                v = self.unfold_const(fn, frame, c)
+                if v is not None:
+                    return v
             if 'uneval' in c and 'promoted' not in c and self.consts:
                 # a named constant of this crate, when the analysis fixes the constants it is computed from
                 # (e.g. LEN): its (branch-free or constant-branching) body is evaluated; anything symbolic is left as is
@@ -476,6 +485,39 @@ class Engine:
             if s_['k'] == 'assign':
                 self.write(st, pf, frame, s_['place'], self.rvalue(st, pf, frame, s_['rv']))
         return st.env.get((frame, 0))
+
+    def unfold_const(self, fn, frame, c):
+        """An associated const of the unfolded trait, asked of the list itself (`Self`) or of its tail: read from the
+        cons or the Null impl according to the level of the frame asking."""
+        u = self.unfold
+        lvl = self.frame_level.get(frame, 0)
+        ua = [a for a in c.get('uneval_args', []) if a.get('k') != 'region']
+        if not ua:
+            return None
+        a = ua[0]
+        tailp = u['cons']['self']['e'][1].get('name') if u['cons']['self'].get('k') == 'tuple' else None
+        in_cons = fn.impl is not None and fn.impl.get('dp') == u['cons'].get('dp')
+        if a.get('k') == 'param' and in_cons and a.get('name') == tailp:
+            lvl += 1
+        elif a.get('k') == 'param' and (a.get('name') == 'Self' or not in_cons):
+            pass
+        elif a.get('k') == 'tuple' and in_cons:
+            pass
+        else:
+            return None
+        imp = u['cons'] if lvl < u['k'] else u['null']
+        name = c.get('uneval_name')
+        own = [cd for cd in self.prog.consts.values() if cd.get('name') == name and cd.get('parent') == imp.get('dp')]
+        dflt = [cd for cd in self.prog.consts.values() if cd.get('name') == name and cd.get('path') == u['trait'] + '::' + name]
+        cd = (own or dflt or [None])[0]
+        m = (cd or {}).get('mir') or {}
+        if len(m.get('blocks', [])) != 1:
+            return None
+        val = None
+        for s_ in m['blocks'][0]['stmts']:
+            if s_['k'] == 'assign' and s_['place']['l'] == 0 and not s_['place']['p'] and s_['rv']['k'] == 'use' and 'const' in s_['rv']['op'] and 'val' in s_['rv']['op']['const']:
+                val = ('c', s_['rv']['op']['const']['val'])
+        return val
 
     def eval_const(self, st, fn, path):
         """Concrete value ('c', n) of the crate constant printed as `path`, or None."""
@@ -904,6 +946,14 @@ class Engine:
         name = f.get('name') or f['path'].rsplit('::', 1)[-1]
         path = f['path']
         gargs = tuple(ty_key(strip_regions(a)) for a in f['args'] if a.get('k') != 'region')
+        if self.unfold and f.get('trait') == self.unfold['trait'] and args and st.depth < self.max_depth + 2 * self.unfold['k'] + 4:
+            lvl = tail_level(st, self, args[0])
+            if lvl is not None and lvl <= self.unfold['k']:
+                imp = self.unfold['cons'] if lvl < self.unfold['k'] else self.unfold['null']
+                tgt = self.prog.impl_method_or_default(imp, name)
+                if tgt is not None and tgt.dp != fn.dp or (tgt is not None and lvl > 0):
+                    en = st.ev('enter', name=name, path=path, gargs=gargs, args=tuple(args), ln=t.get('ln'), fn=fn, f=f, callee=tgt, vals=self.snap(st, args))
+                    return self.call_fn(st, tgt, args, k, None, enter=en['i'], level=lvl)
         callee = self.callee_fn(f)
         if self.models:
             m = MODELS.get(model_key(f))
@@ -973,9 +1023,11 @@ class Engine:
                 mp[g['name']] = ga[g['idx']]
         return mp or None
 
-    def call_fn(self, st, callee, args, k, sub=None, enter=None):
+    def call_fn(self, st, callee, args, k, sub=None, enter=None, level=None):
         self.frames += 1
         frame = self.frames
+        if self.unfold:
+            self.frame_level[frame] = level if level is not None else self.frame_level.get(self.cur_frame, 0)
         if sub is None and callee.kind == 'Closure':
             sub = self.frame_subst.get(self.cur_frame)
         if sub:
@@ -1659,6 +1711,51 @@ def _consumer(E, st, f, a, k, e):
 for _p in ('core::iter::Extend::extend', ITER + 'collect', 'core::iter::FromIterator::from_iter', ITER + 'count', ITER + 'sum', ITER + 'last', ITER + 'max', ITER + 'min',
            ITER + 'unzip', ITER + 'for_each_unused'):
     MODELS[_p] = _consumer
+
+
+def tail_level(st, E, recv):
+    """Number of `.1` steps from a parameter of the root function to the receiver (a reference to a tail of the list),
+    or None."""
+    t = recv
+    n = 0
+    for _ in range(40):
+        if not isinstance(t, tuple) or not t:
+            return None
+        if t[0] == 'r':
+            v = t[1]
+            # a reference to a local / temporary: what it holds
+            if isinstance(v, tuple) and v and v[0] in ('L', 'T') and v in st.store:
+                t = st.store[v]
+                continue
+            if isinstance(v, tuple) and v and v[0] == 'L':
+                try:
+                    t = E.read(st, v)
+                    continue
+                except Exception:
+                    return None
+            t = v
+            continue
+        if t[0] == 'd':
+            t = t[1]
+            continue
+        if t[0] == 'f' and t[3] == 'tuple':
+            if t[2] == 1:
+                n += 1
+                t = t[1]
+                continue
+            return None
+        if t[0] == 'p':
+            return n
+        if t[0] == 'L':
+            if t[1] == 0 and 1 <= t[2] <= E.fn.body.argc:
+                return n            # a parameter of the root function, named by its place
+            try:
+                t = E.read(st, t)
+                continue
+            except Exception:
+                return None
+        return None
+    return None
 
 
 def evaluate(t, leaf, depth=0):
